@@ -354,12 +354,12 @@ def r4(ctx, R):
     md = ctx.func("ModelImpl.del_ref")
     R.inst("ModelImpl.del_ref: clear_attr_referrers(ref) and del_item")
     ca = q.calls(md, name="clear_attr_referrers")
-    if not ca or [norm(a) for a in ca[0].args] != ["ref"] or not q.calls(md, name="del_item"):
+    if not ca or [q.anorm(md, a) for a in ca[0].args] != ["self.global_refs[name]"] or not q.calls(md, name="del_item"):
         R.bad(md, md.node, "deleting a model-level reference does not clear its readers", stmt="clear_attr_referrers")
     rd = ctx.func("RefDict.del_item")
     R.inst("RefDict.del_item: clear_attr_referrers(self.fresh[name])")
     ca = q.calls(rd, name="clear_attr_referrers")
-    if not ca or [norm(a) for a in ca[0].args] != ["self.fresh[name]"]:
+    if not ca or [q.anorm(rd, a) for a in ca[0].args] != ["self.fresh[name]"]:
         R.bad(rd, rd.node, "deleting a reference does not clear its attribute readers", stmt="clear_attr_referrers")
     rr_ = ctx.func("ReferenceGraph.remove_with_referred")
     R.inst("remove_with_referred: a reference node leaves the graph only when no reader is left")
